@@ -447,8 +447,8 @@ def classify(o, hyp, wit, aspect):
             return 'twin'
     if not hyp['LabelsDistinct']:
         return 'samelabel'
-    if aspect == 'time' and not hyp['NonReentrant']:
-        return 'recursion'
+    if aspect == 'time' and not hyp['NonReentrant'] and hyp['NoCollision']:
+        return 'recursion'      # (colliding block hashes also look re-entrant: that is not the recursion finding)
     return None
 
 
